@@ -282,6 +282,10 @@ def _loader(ck, fx, cg):
           "%d reader obligation(s) hold (every constant / global / instruction is loaded at its file position)" % len(rd) if not bad else
           "%d reader obligation(s) violated, first: %s — %s" % (len(bad), bad[0]["key"], bad[0]["detail"][:220]))
     ck.floor("R17.loader", "reader obligations evaluated", len(rd), 20)
+    # … and keeps every instruction and label it read (C03's loader rules: code appended as read, pool one-to-one, labels
+    # derived by the shared function, no refusal beyond decoding)
+    from . import shared as _sh2
+    _sh2.presuppose(ck, fx, cg, "C03", lambda o: o["rule"] == "R3.reload", "R17.loader", "the loader keeps every instruction and label it read", floor=5)
     from . import shared as _sh
     okd, whered, whyd = _sh.bc_deserialize_plain(fx, A)
     if ck.anchor("R17.loader", "BCSerializer::deserialize", True if okd is not None else None):
